@@ -23,6 +23,8 @@ type c05Case struct {
 	PreOps []string       `json:"preOps,omitempty"`    // From-Root entries: earlier operations on the same node tree
 	Late   int            `json:"late,omitempty"`      // iterator entries: the last Late nodes are added after the iterator was created
 	Twice  bool           `json:"twice,omitempty"`     // iterator entries: the same iterator value is ranged over a second time
+	Grow   int            `json:"grow,omitempty"`   // From-Root entries with PreOps: the last Grow nodes are added after those operations ...
+	MidOps []string       `json:"midOps,omitempty"` // ... and these operations (on the same tree, or "other-<op>" on another tree) run after that, before the walk
 	Nest   int            `json:"nest,omitempty"`      // iterator entries: k>0 = a second walk of the same tree runs while the first is at visit k-1
 	NestBr bool           `json:"nestBreak,omitempty"` // ... and is left after its first visit
 	CbErr  int            `json:"cbErr,omitempty"`     // callback entries: which error value the callback returns (ops.CallbackErr)
@@ -47,6 +49,11 @@ func c05Check(c c05Case) string {
 		cs.Prog = preorderProgram(c.Forest[0])
 		cs.PreOps = c.PreOps
 		cs.Faults.CallbackFailAt = c.StopAt
+		if c.Grow > 0 && c.Grow < len(cs.Prog) && len(c.PreOps) > 0 {
+			cs.MidProg = cs.Prog[len(cs.Prog)-c.Grow:]
+			cs.Prog = cs.Prog[:len(cs.Prog)-c.Grow]
+			cs.MidOps = c.MidOps
+		}
 	case "iter", "iteralias":
 		cs.Op = "walkiter"
 		cs.Entry = "root"
@@ -56,6 +63,11 @@ func c05Check(c c05Case) string {
 		cs.Root = &c.Forest[0].Name
 		cs.Prog = preorderProgram(model.Merge(c.Forest)[0])
 		cs.PreOps = c.PreOps
+		if c.Grow > 0 && c.Grow < len(cs.Prog) && len(c.PreOps) > 0 && c.Late == 0 {
+			cs.MidProg = cs.Prog[len(cs.Prog)-c.Grow:]
+			cs.Prog = cs.Prog[:len(cs.Prog)-c.Grow]
+			cs.MidOps = c.MidOps
+		}
 		if c.Late > 0 && c.Late < len(cs.Prog) {
 			// pre-order program: its tail can be added later without changing the final tree
 			cs.LateProg = cs.Prog[len(cs.Prog)-c.Late:]
@@ -164,7 +176,7 @@ func c05Record(col *collector, c c05Case) {
 	if d := model.Merge(c.Forest).Depth(); d >= 18 {
 		cl = append(cl, "depth>=18")
 	}
-	col.eval(nontrivial, hash64(c.Forest.String(), c.Entry, fmt.Sprint(c.Branch, c.StopAt, c.PreOps, c.Late, c.Twice, c.CbErr, c.Nest, c.NestBr), model.Spell(c.Forest, c.Sp)), cl...)
+	col.eval(nontrivial, hash64(c.Forest.String(), c.Entry, fmt.Sprint(c.Branch, c.StopAt, c.PreOps, c.Late, c.Twice, c.CbErr, c.Nest, c.NestBr, c.Grow, c.MidOps), model.Spell(c.Forest, c.Sp)), cl...)
 	col.sample(func() any {
 		return map[string]any{"forest": c.Forest.String(), "entry": c.Entry, "stopAt": c.StopAt, "branch": c.Branch}
 	})
@@ -234,6 +246,10 @@ func c05Gen() *rapid.Generator[c05Case] {
 		}
 		if !strings.HasPrefix(entry, "md") && rapid.IntRange(0, 2).Draw(t, "withPreOps") == 0 {
 			c.PreOps = rapid.SliceOfN(rapid.SampledFrom(preOpPool), 1, 3).Draw(t, "preOps")
+			if rapid.Bool().Draw(t, "growAfter") {
+				c.Grow = rapid.IntRange(1, 3).Draw(t, "grow")
+				c.MidOps = rapid.SliceOfN(rapid.SampledFrom([]string{"json", "yaml", "toml", "other-output", "other-walk", "other-json", "output-massive", "other-dryrun"}), 0, 2).Draw(t, "midOps")
+			}
 		}
 		c.Twice = strings.HasPrefix(entry, "iter") && rapid.IntRange(0, 2).Draw(t, "twice") == 0
 		if !strings.HasPrefix(entry, "iter") && c.StopAt >= 0 {
